@@ -70,8 +70,9 @@ def innermost_repo_frame(text):
 class Driver:
     """One zwdrv child.  Not thread safe; one per worker process."""
 
-    def __init__(self, variant="asan", leaks=False, extra_env=None, wrapper=None):
+    def __init__(self, variant="asan", leaks=False, extra_env=None, wrapper=None, slow_unwind=False):
         self.variant, self.leaks, self.extra_env, self.wrapper = variant, leaks, extra_env or {}, wrapper
+        self.slow_unwind = slow_unwind
         self.p = None
         self.errf = None
         self.gen = 0
@@ -83,14 +84,26 @@ class Driver:
         env = dict(os.environ)
         env.update(ASAN_ENV)
         if self.leaks:
-            env["ASAN_OPTIONS"] = env["ASAN_OPTIONS"].replace("detect_leaks=0", "detect_leaks=1")
+            env["ASAN_OPTIONS"] = env["ASAN_OPTIONS"].replace("detect_leaks=0", "detect_leaks=1") + ":malloc_context_size=80" + \
+                (":fast_unwind_on_malloc=0" if self.slow_unwind else "")
         env.update(self.extra_env)
         os.makedirs(RUN, exist_ok=True)
         self.errf = tempfile.TemporaryFile(dir=RUN)
+        self._errpos = 0
         cmd = (self.wrapper or []) + [exe]
         self.p = subprocess.Popen(cmd, stdin=subprocess.PIPE, stdout=subprocess.PIPE, stderr=self.errf,
                                   env=env, bufsize=0)
         self.buf = b""
+
+    def take_stderr(self):
+        """stderr text produced since the previous call."""
+        try:
+            self.errf.seek(getattr(self, "_errpos", 0))
+            data = self.errf.read()
+            self._errpos = getattr(self, "_errpos", 0) + len(data)
+            return data.decode("utf-8", "replace")
+        except Exception:
+            return ""
 
     def stderr_text(self):
         try:
@@ -360,6 +373,31 @@ class Check:
                 print("INCONCLUSIVE: %s" % w)
             return 2
         return 0
+
+
+def parse_leaks(text):
+    """LeakSanitizer report blocks -> list of (kind, bytes, objects, frames[(function, file:line)])."""
+    out = []
+    for m in re.finditer(r"(Direct|Indirect) leak of (\d+) byte\(s\) in (\d+) object\(s\) allocated from:\n((?:\s+#\d+ [^\n]*\n)+)", text):
+        frames = []
+        for fm in re.finditer(r"#\d+ 0x[0-9a-f]+ in (.*?) (\S+)$", m.group(4), re.M):
+            frames.append((fm.group(1), fm.group(2)))
+        out.append((m.group(1), int(m.group(2)), int(m.group(3)), frames))
+    return out
+
+
+def leak_signature(frames):
+    """Stable identity of an allocation site: the repository functions on the stack, innermost first."""
+    sig = []
+    for fn, loc in frames:
+        if "/libzwerg/" in loc or "/dwgrep/" in loc or "zwdrv+" in loc or loc.startswith("(") or "/repo/" in loc:
+            name = re.sub(r"\(.*", "", fn)
+            name = re.sub(r"<.*", "", name)
+            if "zwdrv.cc" in loc or name in ("operator", "wrap", "capture_errors", "main", "parse_q", "op_run", "op_parse"):
+                continue
+            if not sig or sig[-1] != name:
+                sig.append(name)
+    return ">".join(sig[:6])
 
 
 def load_findings(pid):
